@@ -23,14 +23,29 @@ META = dict(
                 'well-formed text (a subsequence, identity on well-formed input), stop throws iff malformed. Form text widgets (form.cpp base_text): '
                 'valid iff the value is valid for the locale encoding and the number of code points is within the limits. Encoding names: equivalent '
                 'iff equal after normalisation; comparator is a strict weak order. Leafs utf::valid, is_trail, trail_length, width (both copies), the 17 loop bodies '
-                'and the name-normalisation step are regenerated from source on every run and proved equal to the model leafs.'),
+                'and the name-normalisation step are regenerated from source on every run and proved equal to the model leafs. '
+                'Deepening round: the two filter functions of src/encoding.cpp are translated segment by segment (loop conditions, bodies, glue) and '
+                'the functions assembled from the generated segments are proved equal to the model for every input / replacement byte / previous '
+                'output / initial locals; on them: returns true and leaves the output alone iff valid, else the output is the unique token-wise image '
+                '(safe character copied, unsafe character replaced whole, otherwise exactly one byte replaced and decoding resumes at the next byte), '
+                'valid for an acceptable replacement, idempotent. The validators table (37 entries) is generated from validators_set() and equals the '
+                'model table; keys pairwise inequivalent. UTF-16 (utf_traits<CharType,2>): encode/decode inverse on every scalar value, decode exact, '
+                'UTF-8 -> UTF-16 -> UTF-8 through utf_to_utf preserves code points of well-formed text (skip and stop); generated leafs '
+                'is_first/second_surrogate, combine_surrogate, trail_length, width, both encoders (UTF-8, UTF-16) and max_width linked. Form text widget: '
+                'stored count = number of scalar values; exact behaviour at limits n-1, n, n+1. The whole bodies of utf8::next<char const*> and '
+                'utf_traits<char>::decode<char const*> and the loop of utf8::validate(p,e,count,html) are translated from the source as well and proved '
+                'equal to the model on every byte string (value and bytes consumed / answer and count); on the generated functions: next returns c iff the '
+                'input starts with a UTF8-char denoting c (HTML mode: an HTML-safe one), both generated decoders agree everywhere, validate returns true '
+                'iff well-formed (and HTML-safe) with count = incoming + number of code points.'),
     level_note=('Trusted: Coq kernel + vm_compute; cxx2v translator (extended in checks/C14.py for the validator loop shape) and clang AST; '
                 'ExtrOcamlBasic extraction; the decoder switch/loops, validators_set table, validate_or_filter loops are modelled by hand and '
                 'tied by correspondence (all 1- and 2-byte sequences, boundary grid of 3/4-byte sequences, all 256 bytes and all byte pairs per '
                 'name, composed random strings, form submissions through a real http::context), every tier: every 1..3-byte sequence natively under ASan '
                 'against a table-driven reference, thorough tier: every 4-byte sequence as well. Oracles use '
                 'Python 3 strict UTF-8 and the stdlib code-page tables as references. Not covered: iconv/ICU fall-back for names without a '
-                'built-in validator (oracle-only samples for windows-1254), the std::locale -> encoding-name step of valid(locale,...) '
+                'built-in validator (oracle-only: windows-1254 all bytes, EUC-JP/Shift_JIS/GB2312/GBK/CP936/Big5/EUC-KR/CP866 on a safe repertoire '
+                'against Python codecs), the UTF-16 decode/encode bodies and the utf_to_utf loop (hand model, correspondence), '
+                'the std::locale -> encoding-name step of valid(locale,...) '
                 '(exercised for 14 locale names, not modelled), the file-name validation of the upload widget.'),
 )
 
@@ -47,6 +62,14 @@ SB_VALIDATORS = [  # C++ template name in private/encoding_validators.h -> gener
     ('windows_1256_valid', 'g_sb_1256'), ('windows_1257_valid', 'g_sb_1257'), ('windows_1258_valid', 'g_sb_1258'),
     ('koi8_valid', 'g_sb_koi8'),
 ]
+
+
+# top-level shape of the two filter functions that coq/C14/LinkF.v assembles (segment, loop, segment, ...)
+EXPECT_SEGS = {'g_vof_u8': ['g_vof_u8_seg0', 'g_vof_u8_cond1', 'g_vof_u8_body1', 'g_vof_u8_seg1', 'g_vof_u8_cond2', 'g_vof_u8_body2', 'g_vof_u8_seg2'],
+               'g_vof_sb': ['g_vof_sb_seg0', 'g_vof_sb_cond1', 'g_vof_sb_body1', 'g_vof_sb_inc1', 'g_vof_sb_seg1'],
+               'g_val': ['g_val_seg0', 'g_val_cond1', 'g_val_body1', 'g_val_seg1'],
+               'g_val3': ['g_val3_seg0', 'g_val3_cond1', 'g_val3_body1', 'g_val3_seg1']}
+FILTER_SEGS = {}
 
 
 def _strip(n):
@@ -179,18 +202,457 @@ def make_translators():
         finally:
             cxx2v.Tr = tr_cls
 
-    return cxx2v, translate_validator, translate_step, translate_plain
+    def is_ptr(t):
+        return t.get('qualType', '').replace(' ', '') in ('constchar*', 'charconst*')
+
+    class LoopTr(Tr14):
+        """the two filter functions of src/encoding.cpp (pointer loops that call a decoder / a tester and append to a std::string)
+           -> one Gallina definition per top-level segment (straight-line code between loops, loop condition, loop body, for-increment):
+                seg (nx : bool -> Z -> Z * Z) (tst : Z -> Z -> bool) (params : Z ...) (st : <tuple of the top-level locals>)
+                    : g_ctl * <tuple> * list g_emit
+           char const * values are Z (positions); utf8::next(ptr,end,html,false) == / != utf::illegal becomes
+           `let r := nx html ptr in let ptr := snd r in Z.eqb (fst r) g_illegal`; tester(a,b,n) becomes `tst a b` (n is dead afterwards);
+           output.clear() / append(a,b) / += *p / += c become emissions GClear / GRange a b / GAt p / GByte c; output.reserve is ignored;
+           continue / end of body = GNext, break = GBreak, return b = GReturn b."""
+        def __init__(self, state, out_id, end_id, tester_id):
+            super().__init__('', {}, {})
+            self.consts = {'illegal': 'g_illegal'}
+            self.state = state              # [(decl id, coq type)] in declaration order
+            self.out_id, self.end_id, self.tester_id = out_id, end_id, tester_id
+            self.em = []
+            self.dead = set()
+
+        def wrap(self, t, e):
+            if is_ptr(t):
+                return e
+            return super().wrap(t, e)
+
+        def is_bool(self, n):
+            return False if is_ptr(n['type']) else super().is_bool(n)
+
+        def tuple_now(self):
+            return '(' + ', '.join(self.ids[i] for i, _ in self.state) + ')'
+
+        def result(self, ctl):
+            return '(%s, %s, [%s])' % (ctl, self.tuple_now(), '; '.join(self.em))
+
+        def ref_id(self, n):
+            n = _strip(n)
+            return n['referencedDecl']['id'] if n['kind'] == 'DeclRefExpr' else None
+
+        def expr(self, n):
+            if n['kind'] == 'DeclRefExpr' and n['referencedDecl']['id'] in self.dead:
+                raise U('use of %s after it was passed by reference' % n['referencedDecl'].get('name'))
+            if n['kind'] == 'CallExpr' and self.ref_id(n['inner'][0]) == self.tester_id and self.tester_id is not None:
+                a, b, c = n['inner'][1:]
+                cid = self.ref_id(c)
+                if cid not in self.ids:
+                    raise U('tester: third argument is not a local')
+                self.dead.add(cid)
+                return '(tst %s %s)' % (self.expr(a), self.expr(b))
+            return super().expr(n)
+
+        def decoder_cond(self, n):
+            """utf8::next(ptr,end,<bool>,false) ==/!= utf::illegal  ->  (let-prefix, condition) and ptr is rebound"""
+            n = _strip(n)
+            if n['kind'] != 'BinaryOperator' or n.get('opcode') not in ('==', '!='):
+                return None
+            call, other = _strip(n['inner'][0]), n['inner'][1]
+            if call['kind'] != 'CallExpr' or _strip(call['inner'][0]).get('referencedDecl', {}).get('name') != 'next':
+                return None
+            args = call['inner'][1:]
+            pid = self.ref_id(args[0])
+            if len(args) != 4 or pid not in self.ids or self.ref_id(args[1]) != self.end_id:
+                raise U('decoder call is not next(<local>,end,html,decode)')
+            html, dec = _strip(args[2]), _strip(args[3])
+            if dec['kind'] == 'CXXDefaultArgExpr':
+                pass                                     # the declaration says bool /*decode*/=false; the parameter is unused
+            elif dec['kind'] != 'CXXBoolLiteralExpr' or dec['value'] is not False:
+                raise U('decoder call with a decode flag other than false')
+            if html['kind'] == 'CXXBoolLiteralExpr':
+                hexp = 'true' if html['value'] else 'false'
+            elif html['kind'] == 'DeclRefExpr' and html['referencedDecl']['id'] in self.ids and cxx2v.tyinfo(html['type'])[0] == 'b':
+                hexp = self.ids[html['referencedDecl']['id']]
+            else:
+                raise U('decoder call with an html flag that is neither a literal nor a bool parameter')
+            r = self.fresh('r')
+            pre = '(let %s := nx %s %s in ' % (r, hexp, self.ids[pid])
+            np = self.fresh('ptr')
+            pre += 'let %s := snd %s in ' % (np, r)
+            self.ids[pid] = np
+            cond = '(Z.eqb (fst %s) %s)' % (r, self.expr(other))
+            if n['opcode'] == '!=':
+                cond = '(negb %s)' % cond
+            return pre, cond
+
+        def emission(self, s):
+            s0 = _strip(s)
+            if s0['kind'] == 'CXXMemberCallExpr':
+                me = s0['inner'][0]
+                if me['kind'] == 'MemberExpr' and self.ref_id(me['inner'][0]) == self.out_id:
+                    nm = me.get('name')
+                    args = s0['inner'][1:]
+                    if nm == 'clear' and not args:
+                        return 'GClear'
+                    if nm == 'reserve':
+                        return ''
+                    if nm == 'append' and len(args) == 2 and all(is_ptr(a['type']) for a in args):
+                        return 'GRange %s %s' % (self.expr(args[0]), self.expr(args[1]))
+                    raise U('output.%s' % nm)
+            if s0['kind'] == 'CXXOperatorCallExpr':
+                callee = _strip(s0['inner'][0])
+                if callee.get('referencedDecl', {}).get('name') == 'operator+=' and self.ref_id(s0['inner'][1]) == self.out_id:
+                    v = _strip(s0['inner'][2])
+                    if v['kind'] == 'UnaryOperator' and v.get('opcode') == '*' and self.ref_id(v['inner'][0]) in self.ids:
+                        return 'GAt %s' % self.expr(v['inner'][0])
+                    return 'GByte (wrapu 8 %s)' % self.expr(s0['inner'][2])
+            return None
+
+        def stmts(self, ss, brk=None, void=False):
+            if not ss:
+                return self.result('GNext')
+            s, rest = ss[0], ss[1:]
+            k = s['kind']
+            if k == 'ContinueStmt':
+                return self.result('GNext')
+            if k == 'BreakStmt':
+                return self.result('GBreak')
+            if k == 'ReturnStmt':
+                b = _strip(s['inner'][0])
+                if b['kind'] != 'CXXBoolLiteralExpr':
+                    raise U('return of a non-literal')
+                return self.result('GReturn %s' % ('true' if b['value'] else 'false'))
+            if k == 'IfStmt':
+                inner = s['inner']
+                saved_ids, saved_em = dict(self.ids), list(self.em)
+                dc = self.decoder_cond(inner[0])
+                pre, c = dc if dc else ('', self.expr(inner[0]))
+                a = self.flatten(inner[1])
+                b = self.flatten(inner[2]) if len(inner) > 2 else []
+                mid_ids = dict(self.ids)
+                ta = self.stmts(a + rest)
+                self.ids, self.em = dict(mid_ids), list(saved_em)
+                tb = self.stmts(b + rest)
+                self.ids, self.em = saved_ids, saved_em
+                return '%s(if %s then %s else %s)%s' % (pre, c, ta, tb, ')' if pre else '')
+            em = self.emission(s)
+            if em is not None:
+                if em:
+                    self.em.append(em)
+                return self.stmts(rest)
+            if k == 'DeclStmt' and len(s['inner']) == 1 and s['inner'][0]['kind'] == 'VarDecl':
+                d = s['inner'][0]
+                if d['id'] in self.ids or is_ptr(d['type']):      # top-level local (state) or a pointer local
+                    nm = self.fresh(d['name'])
+                    init = self.expr(d['inner'][0]) if d.get('inner') else '(0)'
+                    self.ids[d['id']] = nm
+                    return '(let %s := %s in %s)' % (nm, init, self.stmts(rest))
+            if k == 'UnaryOperator' and s.get('opcode') == '++' and self.ref_id(s['inner'][0]) in self.ids and not is_ptr(s['type']):
+                did = self.ref_id(s['inner'][0])
+                kk, w = cxx2v.tyinfo(s['type'])
+                if kk != 'u':
+                    raise U('++ on a signed integer')
+                nm = self.fresh('n')
+                old = self.ids[did]
+                self.ids[did] = nm
+                return '(let %s := (wrapu %d (Z.add %s 1)) in %s)' % (nm, w, old, self.stmts(rest))
+            if k == 'UnaryOperator' and s.get('opcode') == '++' and self.ref_id(s['inner'][0]) in self.ids and is_ptr(s['type']):
+                did = self.ref_id(s['inner'][0])
+                nm = self.fresh('p')
+                old = self.ids[did]
+                self.ids[did] = nm
+                return '(let %s := (Z.add %s 1) in %s)' % (nm, old, self.stmts(rest))
+            return super().stmts(ss, None, False)
+
+    def translate_ptr_function(fd, prefix, state_params=()):
+        """-> text of the segment definitions + list of segment names in source order.  Top-level shape: statements and loops; every
+        loop is  while(cond) body  or  for(decl; cond; inc) body  whose init declaration is treated as a top-level local."""
+        body = [c for c in fd['inner'] if c['kind'] == 'CompoundStmt'][0].get('inner', [])
+        params = [c for c in fd['inner'] if c['kind'] == 'ParmVarDecl']
+        out_id = end_id = tester_id = None
+        zparams = []
+        state = []
+        for p in params:
+            q = p['type']['qualType']
+            if p.get('name') in state_params:          # a parameter the function modifies (iterator by value, counter by reference)
+                state.append((p['id'], 'Z', p['name']))
+            elif 'string' in q:
+                out_id = p['id']
+            elif '(*)' in q or 'encoding_tester_type' in q:
+                tester_id = p['id']
+            elif is_ptr(p['type']) or tuple(cxx2v.tyinfo(p['type'])) in (('s', 8), ('b', 1)):
+                zparams.append(p)
+                if p['name'] in ('end', 'e'):
+                    end_id = p['id']
+            else:
+                raise U('%s: parameter %s' % (prefix, p['name']))
+        # top-level locals = the rest of the state
+        def add_state(d):
+            if is_ptr(d['type']):
+                state.append((d['id'], 'Z', d['name']))
+            else:
+                kind = cxx2v.tyinfo(d['type'])[0]
+                state.append((d['id'], 'bool' if kind == 'b' else 'Z', d['name']))
+        for s in body:
+            if s['kind'] == 'DeclStmt':
+                for d in s['inner']:
+                    add_state(d)
+            if s['kind'] == 'ForStmt' and s['inner'][0] and s['inner'][0].get('kind') == 'DeclStmt':
+                for d in s['inner'][0]['inner']:
+                    add_state(d)
+        sty = ' * '.join(t for _, t, _ in state)
+        segs, order = [], []
+
+        def emit_seg(name, ss, cond=None):
+            tr = LoopTr([(i, t) for i, t, _ in state], out_id, end_id, tester_id)
+            ps = []
+            for p in zparams:
+                nm = tr.fresh(p['name'])
+                tr.ids[p['id']] = nm
+                ps.append('(%s : %s)' % (nm, 'Z' if is_ptr(p['type']) or cxx2v.tyinfo(p['type'])[0] != 'b' else 'bool'))
+            names = []
+            for i, t, n in state:
+                nm = tr.fresh(n)
+                tr.ids[i] = nm
+                names.append(nm)
+            pat = names[0] if len(names) == 1 else "'(" + ', '.join(names) + ')'
+            head = 'Definition %s (nx : bool -> Z -> Z * Z) (tst : Z -> Z -> bool) %s (st : %s)' % (name, ' '.join(ps), sty)
+            if cond is not None:
+                code = tr.expr(cond)
+                segs.append('%s : bool :=\n  let %s := st in %s.\n' % (head, pat, code))
+            else:
+                code = tr.stmts(ss)
+                segs.append('%s : g_ctl * (%s) * list g_emit :=\n  let %s := st in %s.\n' % (head, sty, pat, code))
+            order.append(name)
+
+        pending, nseg, nloop = [], 0, 0
+        tr0 = LoopTr([], None, None, None)
+        for s in body:
+            if s['kind'] in ('WhileStmt', 'ForStmt'):
+                nloop += 1
+                if s['kind'] == 'ForStmt':
+                    init, _, cond, inc, lbody = s['inner']
+                    if init:
+                        pending.append(init)
+                else:
+                    cond, lbody = s['inner'][0], s['inner'][-1]
+                    inc = None
+                emit_seg('%s_seg%d' % (prefix, nseg), pending)
+                nseg += 1
+                pending = []
+                emit_seg('%s_cond%d' % (prefix, nloop), None, cond=cond)
+                emit_seg('%s_body%d' % (prefix, nloop), tr0.flatten(lbody))
+                if inc is not None:
+                    emit_seg('%s_inc%d' % (prefix, nloop), [inc])
+            else:
+                pending.append(s)
+        emit_seg('%s_seg%d' % (prefix, nseg), pending)
+        return '\n'.join(segs), order
+
+    class EmitTr(Tr14):
+        """an encoder  Iterator encode(code_point v, Iterator out) { ... *out++ = x; ... return out; }  ->  v -> list of code units"""
+        unit = 8
+
+        def emission(self, s):
+            s0 = _strip(s)
+            if s0['kind'] == 'BinaryOperator' and s0.get('opcode') == '=':
+                l = _strip(s0['inner'][0])
+                if l['kind'] == 'UnaryOperator' and l.get('opcode') == '*':
+                    l2 = _strip(l['inner'][0])
+                    if l2['kind'] == 'UnaryOperator' and l2.get('opcode') == '++' and l2.get('isPostfix') \
+                            and _strip(l2['inner'][0]).get('referencedDecl', {}).get('id') == self.out_id:
+                        return '[wrapu %d %s]' % (self.unit, self.expr(s0['inner'][1]))
+            return None
+
+        def stmts(self, ss, brk=None, void=False):
+            if ss and ss[0]['kind'] == 'ReturnStmt':
+                r = _strip(ss[0]['inner'][0])
+                if r.get('referencedDecl', {}).get('id') != self.out_id:
+                    raise U('encoder returns something other than the output iterator')
+                return '[]'
+            return super().stmts(ss, brk, void)
+
+    def translate_encoder(fd, coqname, unit):
+        tr = EmitTr('', {}, {})
+        tr.consts = {}
+        tr.unit = unit
+        ps = [c for c in fd['inner'] if c['kind'] == 'ParmVarDecl']
+        if len(ps) != 2:
+            raise U('%s: expected (value, out)' % coqname)
+        nm = tr.fresh(ps[0]['name'])
+        tr.ids[ps[0]['id']] = nm
+        tr.out_id = ps[1]['id']
+        body = [c for c in fd['inner'] if c['kind'] == 'CompoundStmt'][0]
+        return 'Definition %s (%s : Z) : list Z :=\n  %s.\n' % (coqname, nm, tr.stmts(tr.flatten(body), None, 'emit'))
+
+    class DecTr(Tr14):
+        """utf8::next(Iterator &p, Iterator e, bool html, bool) for a pointer iterator: loop-free, reads *p++ at statically known offsets
+           -> g (rd : Z -> Z) (n : Z) (html : bool) : Z * Z   = (returned value, number of bytes consumed);  rd k = the k-th byte as a char"""
+        POS = '__pos'
+
+        def expr(self, n):
+            n0 = _strip(n) if n['kind'] in ('ParenExpr',) else n
+            if n0['kind'] == 'UnaryOperator' and n0.get('opcode') == '*':
+                s1 = _strip(n0['inner'][0])
+                if s1['kind'] == 'UnaryOperator' and s1.get('opcode') == '++' and s1.get('isPostfix') \
+                        and _strip(s1['inner'][0]).get('referencedDecl', {}).get('id') == self.p_id:
+                    k = self.ids[self.POS]
+                    self.ids[self.POS] = k + 1
+                    return '(wraps 8 (rd (%d)))' % k
+            if n0['kind'] == 'BinaryOperator' and n0.get('opcode') == '==':
+                a, b = [_strip(x).get('referencedDecl', {}).get('id') for x in n0['inner']]
+                if a == self.p_id and b == self.e_id:
+                    return '(Z.eqb (%d) n)' % self.ids[self.POS]
+            return super().expr(n)
+
+        def is_bool(self, n):
+            return False if is_ptr(n['type']) else super().is_bool(n)
+
+        def stmts(self, ss, brk=None, void=False):
+            if ss:
+                s = ss[0]
+                if s['kind'] == 'DeclStmt' and all(d['kind'] in ('UsingDecl', 'UsingShadowDecl') for d in s['inner']):
+                    return self.stmts(ss[1:], brk, void)
+                if s['kind'] == 'ReturnStmt':
+                    return '(%s, (%d))' % (self.expr(s['inner'][0]), self.ids[self.POS])
+            return super().stmts(ss, brk, void)
+
+    def translate_decoder(fd, coqname, known, consts=None):
+        tr = DecTr('', known, {})
+        tr.consts = consts or {'illegal': 'g_illegal'}
+        ps = [c for c in fd['inner'] if c['kind'] == 'ParmVarDecl']
+        if len(ps) not in (2, 4) or not all(is_ptr({'qualType': x['type']['qualType'].replace('&', '').strip()}) for x in ps[:2]):
+            raise U('%s: expected (Iterator &p, Iterator e[, bool html, bool])' % coqname)
+        tr.p_id, tr.e_id = ps[0]['id'], ps[1]['id']
+        if len(ps) == 4:
+            tr.ids[ps[2]['id']] = 'html'
+        tr.ids[tr.POS] = 0
+        body = [c for c in fd['inner'] if c['kind'] == 'CompoundStmt'][0]
+        return 'Definition %s (rd : Z -> Z) (n : Z)%s : Z * Z :=\n  %s.\n' % (coqname, ' (html : bool)' if len(ps) == 4 else '', tr.stmts(tr.flatten(body)))
+
+    class SeqTr(Tr14):
+        """cppcms::utf8::encode(value): seq out=seq(); ... out.c[k]=x; ... out.len=n; return out;  ->  value -> list of bytes
+           (the k-th assignment on a path must be to c[k], and len must be set to the number of bytes assigned)"""
+        N, LEN = '__n', '__len'
+
+        def member(self, n):
+            n = _strip(n)
+            if n['kind'] == 'MemberExpr' and _strip(n['inner'][0]).get('referencedDecl', {}).get('id') == self.out_id:
+                return n.get('name')
+            return None
+
+        def emission(self, s):
+            s0 = _strip(s)
+            if s0['kind'] == 'BinaryOperator' and s0.get('opcode') == '=':
+                l = _strip(s0['inner'][0])
+                if l['kind'] == 'ArraySubscriptExpr' and self.member(l['inner'][0]) == 'c':
+                    k = _strip(l['inner'][1])
+                    if k['kind'] != 'IntegerLiteral' or int(k['value']) != self.ids[self.N]:
+                        raise U('encode: bytes are not assigned in order')
+                    self.ids[self.N] += 1
+                    return '[wrapu 8 %s]' % self.expr(s0['inner'][1])
+                if self.member(l) == 'len':
+                    k = _strip(s0['inner'][1])
+                    if k['kind'] != 'IntegerLiteral':
+                        raise U('encode: len is not a literal')
+                    self.ids[self.LEN] = int(k['value'])
+                    return '[]'
+            return None
+
+        def stmts(self, ss, brk=None, void=False):
+            if ss:
+                s = ss[0]
+                if s['kind'] == 'DeclStmt' and len(s['inner']) == 1 and s['inner'][0].get('type', {}).get('qualType', '').endswith('seq'):
+                    self.out_id = s['inner'][0]['id']
+                    return self.stmts(ss[1:], brk, void)
+                if s['kind'] == 'ReturnStmt':
+                    found = []
+                    _walk(s, lambda x, ps: found.append(x) if x.get('kind') == 'DeclRefExpr' else None)
+                    if [x['referencedDecl']['id'] for x in found] != [self.out_id]:
+                        raise U('encode: returns something other than out')
+                    if self.ids[self.LEN] != self.ids[self.N]:
+                        raise U('encode: len = %s after %s bytes' % (self.ids[self.LEN], self.ids[self.N]))
+                    return '[]'
+            return super().stmts(ss, brk, void)
+
+    def translate_seq_encoder(fd, coqname):
+        tr = SeqTr('', {}, {})
+        tr.consts = {}
+        tr.out_id = None
+        ps = [c for c in fd['inner'] if c['kind'] == 'ParmVarDecl']
+        nm = tr.fresh(ps[0]['name'])
+        tr.ids[ps[0]['id']] = nm
+        tr.ids[tr.N], tr.ids[tr.LEN] = 0, None
+        body = [c for c in fd['inner'] if c['kind'] == 'CompoundStmt'][0]
+        return 'Definition %s (%s : Z) : list Z :=\n  %s.\n' % (coqname, nm, tr.stmts(tr.flatten(body), None, 'emit'))
+
+    def translate_table(fd):
+        body = [c for c in fd['inner'] if c['kind'] == 'CompoundStmt'][0].get('inner', [])
+        index = dict((cxx, i) for i, (cxx, _) in enumerate(SB_VALIDATORS))
+        index['utf8_valid'] = 100
+        local = {}
+
+        def fn_of(n):
+            n = _strip(n)
+            if n['kind'] == 'UnaryOperator' and n.get('opcode') == '&':
+                n = _strip(n['inner'][0])
+            if n['kind'] != 'DeclRefExpr':
+                raise U('validators_set: right-hand side ' + n['kind'])
+            rid = n['referencedDecl']['id']
+            if rid in local:
+                return local[rid]
+            nm = n['referencedDecl'].get('name')
+            if nm not in index:
+                raise U('validators_set: unknown validator ' + str(nm))
+            return index[nm]
+
+        def assign(n):
+            n = _strip(n)
+            if n['kind'] == 'CXXBindTemporaryExpr':
+                n = _strip(n['inner'][0])
+            if n['kind'] != 'BinaryOperator' or n.get('opcode') != '=':
+                raise U('validators_set: statement ' + n['kind'])
+            lhs, rhs = _strip(n['inner'][0]), _strip(n['inner'][1])
+            if lhs['kind'] != 'CXXOperatorCallExpr' or _strip(lhs['inner'][0]).get('referencedDecl', {}).get('name') != 'operator[]' \
+                    or _strip(lhs['inner'][1]).get('name') != 'predefined_':
+                raise U('validators_set: left-hand side is not predefined_[...]')
+            lits = []
+            _walk(lhs['inner'][2], lambda x, ps: lits.append(x) if x.get('kind') == 'StringLiteral' else None)
+            if len(lits) != 1:
+                raise U('validators_set: key is not a string literal')
+            import json as _json
+            name = _json.loads(lits[0]['value'])
+            if rhs['kind'] == 'BinaryOperator' and rhs.get('opcode') == '=':
+                names, f = assign(rhs)
+                return [name] + names, f
+            return [name], fn_of(rhs)
+
+        rows = []
+        for st in body:
+            if st['kind'] == 'DeclStmt':
+                for d in st['inner']:
+                    local[d['id']] = fn_of(d['inner'][0])
+                continue
+            names, f = assign(st)
+            for nm in names:
+                rows.append('([%s], (%d))' % ('; '.join(str(ord(ch)) for ch in nm), f))
+        return 'Definition g_enc_table : list (list Z * Z) :=\n  [%s].\n' % ';\n   '.join(rows)
+
+    return cxx2v, translate_validator, translate_step, translate_plain, translate_ptr_function, translate_table, translate_encoder, translate_decoder, translate_seq_encoder
 
 
 def gen_c14():
     """writes coq/gen/Gen_C14.v from the current headers and src/encoding.cpp; returns [(name, error)]"""
-    cxx2v, translate_validator, translate_step, translate_plain = make_translators()
+    cxx2v, translate_validator, translate_step, translate_plain, translate_ptr_function, translate_table, translate_encoder, translate_decoder, translate_seq_encoder = make_translators()
     out = os.path.join(vlib.COQ, 'gen', 'Gen_C14.v')
     tu = os.path.join(vlib.VERIF, 'harness', 'C14_tu.cpp')
     lines = ['(* GENERATED by checks/C14.py (tools/cxx2v.py) from private/utf_iterator.h, private/encoding_validators.h,',
              '   booster/booster/locale/utf.h and src/encoding.cpp of the checked tree -- do not edit *)',
              'From Coq Require Import ZArith List Bool.', 'From CppcmsV Require Import Base.CSem.',
-             'Local Open Scope Z_scope.', 'Import ListNotations.', '']
+             'Local Open Scope Z_scope.', 'Import ListNotations.', '',
+             '(* what one segment of a filter function does to the output string / how it ends (see LoopTr in checks/C14.py) *)',
+             'Inductive g_emit := GClear | GRange (a b : Z) | GAt (p : Z) | GByte (v : Z).',
+             'Inductive g_ctl := GNext | GBreak | GReturn (b : bool).', '']
     try:
         incs = vlib.repo_incs()
 
@@ -211,6 +673,12 @@ def gen_c14():
         lines.append(translate_plain(decls('utf::valid', 'FunctionDecl', 'valid'), 'g_utf_valid', {}))
         for cxx, coq in [('is_trail', 'g_is_trail'), ('trail_length', 'g_trail_length'), ('width', 'g_width')]:
             lines.append(translate_plain(decls('utf8::' + cxx, 'FunctionDecl', cxx), coq, {}))
+        # 1a. the framework's encoder utf8::encode (fills a struct seq)
+        lines.append(translate_seq_encoder(decls('utf8::encode', 'FunctionDecl', 'encode'), 'g_encode'))
+        # 1b. the framework's UTF-16 helpers of the same header (used by the JSON parser)
+        for cxx, coq in [('is_first_surrogate', 'g_c16_is_first_surrogate'), ('is_second_surrogate', 'g_c16_is_second_surrogate'),
+                         ('combine_surrogate', 'g_c16_combine_surrogate')]:
+            lines.append(translate_plain(decls('utf16::' + cxx, 'FunctionDecl', cxx), coq, {}))
         # 2. the support library's copies (booster/locale/utf.h), instantiated for char
         lines.append(translate_plain(decls('is_valid_codepoint', 'FunctionDecl', 'is_valid_codepoint'), 'g_b_is_valid_codepoint', {}))
 
@@ -225,6 +693,30 @@ def gen_c14():
                          ('is_lead', 'g_b_is_lead')]:
             lines.append(translate_plain(decls('utf_traits', 'CXXMethodDecl', cxx, pred=in_char_spec), coq, dict(known)))
             known[cxx] = coq
+        # 2b. the UTF-16 arithmetic of the support library: utf_traits<char16_t,2>
+        def in_u16_spec(n, parents):
+            for p in parents:
+                if p.get('kind') == 'ClassTemplateSpecializationDecl':
+                    targs = [c for c in p.get('inner', []) if c.get('kind') == 'TemplateArgument']
+                    return len(targs) == 2 and targs[0].get('type', {}).get('qualType') == 'char16_t' and str(targs[1].get('value')) == '2'
+            return False
+        known16 = {}
+        for cxx, coq in [('is_first_surrogate', 'g_b16_is_first_surrogate'), ('is_second_surrogate', 'g_b16_is_second_surrogate'),
+                         ('combine_surrogate', 'g_b16_combine_surrogate'), ('trail_length', 'g_b16_trail_length'), ('width', 'g_b16_width')]:
+            lines.append(translate_plain(decls('utf_traits', 'CXXMethodDecl', cxx, pred=in_u16_spec), coq, dict(known16)))
+            known16[cxx] = coq
+        # 2c. the encoders of the support library (instantiated for plain pointers in the TU) and max_width
+        def inst(spec, ptr):
+            return lambda n, parents: spec(n, parents) and n.get('type', {}).get('qualType', '').replace(' ', '').startswith(ptr + '(')
+        lines.append(translate_encoder(decls('utf_traits', 'CXXMethodDecl', 'encode', pred=inst(in_char_spec, 'char*')), 'g_b_encode', 8))
+        lines.append(translate_encoder(decls('utf_traits', 'CXXMethodDecl', 'encode', pred=inst(in_u16_spec, 'char16_t*')), 'g_b16_encode', 16))
+        for spec, coq in ((in_char_spec, 'g_b_max_width'), (in_u16_spec, 'g_b16_max_width')):
+            found = []
+            for o in cxx2v.run_clang(tu, 'utf_traits', incs):
+                _walk(o, lambda n, ps: found.append(n) if n.get('kind') == 'VarDecl' and n.get('name') == 'max_width' and n.get('inner') and spec(n, ps) else None)
+            if not found:
+                raise cxx2v.Unsupported('max_width not found')
+            lines.append('Definition %s : Z := (%d).\n' % (coq, cxx2v.const_int(found[0]['inner'][0])))
         # 3. single-byte validators: the per-byte loop body as a predicate
         def is_inst(n, parents):
             return 'const char *' in n.get('type', {}).get('qualType', '')
@@ -233,6 +725,51 @@ def gen_c14():
         # 4. encoding-name normalisation step (src/encoding.cpp: encodings_comparator::next)
         enc_src = os.path.join(vlib.REPO, 'src', 'encoding.cpp')
         lines.append(translate_step(decls('encodings_comparator::next', 'CXXMethodDecl', 'next', src=enc_src), 'g_enc_name_step'))
+        # 5. the filter functions of src/encoding.cpp, segment by segment (loop conditions, loop bodies, the code between the loops)
+        objs = cxx2v.run_clang(tu, 'utf::illegal', incs)
+        vds = [v for v in cxx2v.find_decl(objs, 'VarDecl', 'illegal') if v.get('inner')]
+        if not vds:
+            raise cxx2v.Unsupported('utf::illegal not found')
+        lines.append('Definition g_illegal : Z := (%d).\n' % cxx2v.const_int(vds[0]['inner'][0]))
+        global FILTER_SEGS
+        FILTER_SEGS = {}
+        for cxx, pre in [('validate_or_filter_utf8', 'g_vof_u8'), ('validate_or_filter_single_byte_charset', 'g_vof_sb')]:
+            txt, order = translate_ptr_function(decls(cxx, 'FunctionDecl', cxx, src=enc_src), pre)
+            lines.append(txt)
+            FILTER_SEGS[pre] = order
+        # 6. the validators table: validators_set::validators_set() as a list (name, index of the validator in SB_VALIDATORS; 100 = utf8_valid),
+        #    in textual order of the name literals
+        lines.append(translate_table(decls('validators_set::validators_set', 'CXXConstructorDecl', 'validators_set', src=enc_src)))
+        # 5a. the next-character function itself: utf8::next<char const *>
+        def is_next_inst(n, parents):
+            return 'const char *&' in n.get('type', {}).get('qualType', '')
+        lines.append(translate_decoder(decls('utf8::next', 'FunctionDecl', 'next', pred=is_next_inst), 'g_next',
+                                       {'trail_length': 'g_trail_length', 'is_trail': 'g_is_trail', 'valid': 'g_utf_valid', 'width': 'g_width'}))
+        #     and the support library's utf_traits<char,1>::decode<char const *>
+        for nm, coq in (('illegal', 'g_b_illegal'), ('incomplete', 'g_b_incomplete')):
+            vds = [v for o in cxx2v.run_clang(tu, 'booster::locale::utf::' + nm, incs) for v in cxx2v.find_decl([o], 'VarDecl', nm) if v.get('inner')]
+            if not vds:
+                raise cxx2v.Unsupported('booster %s not found' % nm)
+            lines.append('Definition %s : Z := (%d).\n' % (coq, cxx2v.const_int(vds[0]['inner'][0])))
+        def is_decode_inst(n, parents):
+            return in_char_spec(n, parents) and 'const char *&' in n.get('type', {}).get('qualType', '')
+        lines.append(translate_decoder(decls('utf_traits', 'CXXMethodDecl', 'decode', pred=is_decode_inst), 'g_b_decode',
+                                       {'trail_length': 'g_b_trail_length', 'is_trail': 'g_b_is_trail', 'is_valid_codepoint': 'g_b_is_valid_codepoint',
+                                        'width': 'g_b_width'}, {'illegal': 'g_b_illegal', 'incomplete': 'g_b_incomplete'}))
+        # 5b. the validate loop of private/utf_iterator.h: utf8::validate(p,e,count,html), instantiated for char const *
+        def is_validate4(n, parents):
+            return len([c for c in n.get('inner', []) if c.get('kind') == 'ParmVarDecl']) == 4 and 'const char *' in n.get('type', {}).get('qualType', '')
+        txt, order = translate_ptr_function(decls('utf8::validate', 'FunctionDecl', 'validate', pred=is_validate4), 'g_val', state_params=('p', 'count'))
+        lines.append(txt)
+        FILTER_SEGS['g_val'] = order
+        def is_validate3(n, parents):
+            return len([c for c in n.get('inner', []) if c.get('kind') == 'ParmVarDecl']) == 3 and 'const char *' in n.get('type', {}).get('qualType', '')
+        txt, order = translate_ptr_function(decls('utf8::validate', 'FunctionDecl', 'validate', pred=is_validate3), 'g_val3', state_params=('p',))
+        lines.append(txt)
+        FILTER_SEGS['g_val3'] = order
+        for pre, want in EXPECT_SEGS.items():
+            if FILTER_SEGS[pre] != want:
+                raise cxx2v.Unsupported('%s: the function is no longer of the shape %s (found %s)' % (pre, ' ; '.join(want), ' ; '.join(FILTER_SEGS[pre])))
         txt = '\n'.join(lines) + '\n'
         err = []
     except cxx2v.Unsupported as e:
@@ -527,6 +1064,42 @@ def gen_cases(ctx):
     for _ in range(ctx.scale(3000, 30000)):
         cases.append('enc %x' % rng.choice((rng.randrange(0, 0x800), rng.randrange(0x800, 0x10000), rng.randrange(0x10000, 0x110000),
                                              rng.randrange(0x110000, 0x200000), rng.randrange(0xD7F0, 0xE010))))
+    # ---- UTF-16 side of the support library: decode / encode / conversions between UTF-8 and UTF-16 ----
+    U16B = [0x0000, 0x0041, 0x007F, 0x0080, 0x07FF, 0x0800, 0xD7FF, 0xD800, 0xD801, 0xDBFF, 0xDC00, 0xDC01, 0xDFFF, 0xE000, 0xFFFD, 0xFFFF]
+    cases.append('d16 -')
+    for a in U16B:
+        cases.append('d16 %04x' % a)
+        for b in U16B:
+            cases.append('d16 %04x%04x' % (a, b))
+            cases.append('d16 %04x%04x0041' % (a, b))
+    for c in BOUNDARY_CPS + [0xD7FF, 0xE000, 0x10001, 0x103FF, 0x10400, 0xFFFFF, 0x10FFFE]:
+        if not (0xD800 <= c <= 0xDFFF):
+            cases.append('e16 %x' % c)
+    for _ in range(ctx.scale(1500, 15000)):
+        cases.append('e16 %x' % rng.choice((rng.randrange(0, 0xD800), rng.randrange(0xE000, 0x10000), rng.randrange(0x10000, 0x110000))))
+
+    def rand_units(n):
+        out = []
+        for _ in range(n):
+            r = rng.random()
+            if r < 0.5:
+                out.append(rng.choice((rng.randrange(0x20, 0x7F), rng.randrange(0x80, 0xD800), rng.randrange(0xE000, 0x10000))))
+            elif r < 0.8:
+                out += [rng.randrange(0xD800, 0xDC00), rng.randrange(0xDC00, 0xE000)]
+            else:
+                out.append(rng.choice(U16B[7:13] + [rng.randrange(0xD800, 0xE000)]))
+        return out
+    for _ in range(ctx.scale(2500, 25000)):
+        u = rand_units(rng.choice((0, 1, 2, 3, 5, 9)))
+        h = ''.join('%04x' % x for x in u) or '-'
+        cases.append('c168 ' + h)
+        if rng.random() < 0.3:
+            cases.append('d16 ' + h)
+    for _ in range(ctx.scale(2500, 25000)):
+        n = rng.choice((0, 1, 2, 3, 5, 9))
+        r = rng.random()
+        s = mix(rng, n, 0.0, 0.1) if r < 0.5 else mix(rng, n, 0.25, 0.05)
+        cases.append('c816 ' + hexs(s))
     # ---- whole-string validators and counters ----
     for _ in range(ctx.scale(7000, 100000)):
         n = rng.choice((0, 1, 2, 3, 5, 8, 13, 21, 40))
@@ -600,6 +1173,17 @@ def gen_cases(ctx):
             s = s[:rng.randrange(0, len(s) + 1)]
         repl = rng.choice((0, 0, 0, 0x3F, 0x3F, 0x20, 0x58, 0x09, 0x7E, 0x01, 0x7F, 0x80, 0xFF, rng.getrandbits(8)))
         cases.append('flt %s %02x %s' % (hexs(rng.choice(u8names)), repl, hexs(s)))
+    # exhaustive small domain for the filter loops (case splits of LinkF.loop1 / loop2: safe character, unsafe character, no character
+    # here -- bad lead, bad / missing trail, over-long, surrogate, too large, truncated -- in every order): all strings of length <= 3
+    # over a boundary alphabet, without and with a replacement character
+    FA = [0x41, 0x1B, 0x7F, 0x80, 0xBF, 0xC2, 0xE0, 0xA0, 0xED, 0xF0, 0x90, 0xF4, 0xFF]
+    for n in (1, 2, 3):
+        for t in itertools.product(FA, repeat=n):
+            for repl in (0x00, 0x3F):
+                cases.append('flt 75746638 %02x %s' % (repl, hexs(bytes(t))))
+    for nm in ('iso88591', 'cp1252', 'koi8r', 'ascii'):
+        for t in itertools.product([0x41, 0x09, 0x1B, 0x7F, 0x81, 0x9F, 0xA0, 0xFF], repeat=3):
+            cases.append('flt %s %02x %s' % (hexs(nm.encode()), rng.choice((0x00, 0x3F)), hexs(bytes(t))))
     for ln in ([2000] if ctx.quick() else [2000, 8000]):
         s = mix(rng, ln // 2, 0.01, 0.01)
         cases.append('flt 75746638 3f ' + hexs(s))
@@ -640,6 +1224,22 @@ def gen_form_cases(ctx):
             high = -1
         cs = 0 if rng.random() < 0.15 else 1
         cases.append('frm %s %d %d %d %s' % (hexs(loc), low, high, cs, hexs(v)))
+    # exact limit boundary (Props.form_text_limit_boundary): n code points of 1..4 bytes each against limits n-1, n, n+1 and against the
+    # same offsets around the byte length; the multi-byte characters straddle every byte position a byte-counting widget would cut at
+    u8locs = [l for l in FORM_LOCALES if locale_encoding(l) == 'utf8']
+    widths = [lambda: chr(rng.randrange(0x20, 0x7F)), lambda: chr(rng.randrange(0xA0, 0x800)),
+              lambda: chr(rng.choice((rng.randrange(0x800, 0xD800), rng.randrange(0xE000, 0x10000)))), lambda: chr(rng.randrange(0x10000, 0x110000))]
+    for n in (1, 2, 3, 4, 5, 7, 16) if ctx.quick() else (1, 2, 3, 4, 5, 6, 7, 8, 16, 31, 64):
+        for shape in range(ctx.scale(4, 12)):
+            t = ''.join(widths[(shape + i) % 4 if shape < 4 else rng.randrange(4)]() for i in range(n))
+            v = t.encode('utf-8')
+            nb = len(v)
+            lims = {(0, n - 1), (0, n), (0, n + 1), (n, -1), (n + 1, -1), (n, n), (n - 1, n - 1), (n + 1, n + 1),
+                    (0, nb - 1), (0, nb), (nb, -1), (nb - 1, -1), (n, nb), (nb, nb)}
+            for low, high in sorted(lims):
+                if low >= 0 and high >= -1:
+                    cases.append('frm %s %d %d 1 %s' % (hexs(rng.choice(u8locs)), low, high, hexs(v)))
+            cases.append('frm %s %d %d 0 %s' % (hexs(rng.choice(u8locs)), n + 1, nb, hexs(v)))      # charset validation off: bytes count
     return cases
 
 
@@ -683,7 +1283,58 @@ def gen_fallback_cases(ctx):
         for _ in range(ctx.scale(50, 500)):
             s = bytes(rng.getrandbits(8) if rng.random() < 0.1 else rng.randrange(0x20, 0x7F) for _ in range(rng.randrange(0, 30)))
             cases.append('vnm %s 4 %s' % (hexs(nm), hexs(s)))
+    # multi-byte and other code pages without a built-in validator: text from a repertoire both Python and iconv/ICU know
+    for nm, codec in sorted(FALLBACK_CODECS.items()):
+        rep = fallback_repertoire(codec)
+        for _ in range(ctx.scale(25, 250)):
+            t = ''.join(rng.choice(rep) if rng.random() < 0.6 else chr(rng.randrange(0x20, 0x7F)) for _ in range(rng.randrange(0, 12)))
+            b = t.encode(codec)
+            r = rng.random()
+            if r < 0.2 and b:
+                b = b[:-1]                                           # possibly a truncated multi-byte character
+            elif r < 0.35:
+                k = rng.randrange(len(b) + 1) if not FALLBACK_MULTIBYTE[nm] else len(b)
+                b = b[:k] + bytes([rng.choice((0, 1, 8, 0x0B, 0x1F, 0x7F))]) + b[k:]   # a control character
+            cases.append('vnm %s %d %s' % (hexs(rng.choice(FALLBACK_SPELLINGS[nm]).encode()), rng.choice((0, 7)), hexs(b)))
     return cases
+
+
+# names that go through booster::locale::conv::between (iconv or ICU): normalised name -> Python codec (reference for the oracle only)
+FALLBACK_CODECS = {'eucjp': 'euc_jp', 'shiftjis': 'shift_jis', 'gb2312': 'gb2312', 'gbk': 'gbk', 'cp936': 'cp936', 'big5': 'big5',
+                   'euckr': 'euc_kr', 'cp866': 'cp866'}
+FALLBACK_MULTIBYTE = dict((n, n != 'cp866') for n in FALLBACK_CODECS)
+FALLBACK_SPELLINGS = {'eucjp': ['EUC-JP', 'euc-jp'], 'shiftjis': ['Shift_JIS', 'shift-jis'], 'gb2312': ['GB2312', 'gb2312'], 'gbk': ['GBK', 'gbk'],
+                      'cp936': ['CP936', 'cp936'], 'big5': ['Big5', 'BIG5'], 'euckr': ['EUC-KR', 'euc-kr'], 'cp866': ['CP866', 'cp866']}
+_FBREP = {}
+
+
+def fallback_repertoire(codec):
+    """kana, Cyrillic, a few common Han characters and Hangul syllables, as far as the code page has them (round trip in Python)"""
+    if codec not in _FBREP:
+        cand = [chr(c) for c in itertools.chain(range(0x3041, 0x3094), range(0x30A1, 0x30F7), range(0x0410, 0x0450))]
+        cand += list('\u65e5\u672c\u8a9e\u6f22\u5b57\u4e2d\u6587\u672c\u5c71\u5ddd\u6c34\u706b\u4eba\u5927\u5c0f') + [chr(c) for c in range(0xAC00, 0xAC00 + 588 * 19, 588)]
+        ok = []
+        for ch in cand:
+            try:
+                if ch.encode(codec).decode(codec) == ch:
+                    ok.append(ch)
+            except UnicodeError:
+                pass
+        _FBREP[codec] = ok
+    return _FBREP[codec]
+
+
+def fallback_expect(nn, s):
+    """None = no opinion; else (valid, code points).  Python's codec is the reference only where it is safe: text it decodes (valid iff
+    HTML-safe), and input it rejects as cut in the middle of a multi-byte character"""
+    codec = FALLBACK_CODECS[nn]
+    try:
+        t = s.decode(codec)
+    except UnicodeDecodeError as e:
+        if 'incomplete' in e.reason and e.end == len(s):
+            return (False, 0)
+        return None
+    return (all(html_safe(ord(ch)) for ch in t), len(t))
 
 
 # ------------------------------------------------------------------------------------------------
@@ -791,6 +1442,15 @@ def oracle(case, out):
             ref = _cp1254_ref()
         elif nn in TABLE:
             ref = sb_ref(nn)
+        elif nn in FALLBACK_CODECS:
+            fe = fallback_expect(nn, s)
+            if fe is None:
+                return None
+            if ok != fe[0]:
+                return ('fallback-valid-wrong', 'encoding::valid(%s) (iconv/ICU fall-back) %s %s' % (nn, 'accepted' if ok else 'rejected', s.hex()))
+            if ok and cnt != c0 + fe[1]:
+                return ('fallback-count-wrong', 'encoding::valid(%s): count %d, expected %d + %d code points' % (nn, cnt, c0, fe[1]))
+            return None
         else:
             return None
         exp = all(ref[b] for b in s)
@@ -891,7 +1551,117 @@ def oracle(case, out):
         if cps is not None and unhex(o[2]) != s:
             return ('utf_to_utf-changes-valid', 'utf_to_utf<char,char>(stop) changed well-formed text')
         return None
+    if op in ('d16', 'c168', 'c816', 'e16'):
+        return oracle16(op, c, o)
     return ('bad-case', 'unknown case ' + case[:100])
+
+
+def units_of(h):
+    return [] if h == '-' else [int(h[i:i + 4], 16) for i in range(0, len(h), 4)]
+
+
+def ref16_next(u):
+    """RFC 2781: (code point, units) at the start of u, or None"""
+    if not u:
+        return None
+    if u[0] < 0xD800 or u[0] > 0xDFFF:
+        return u[0], 1
+    if u[0] <= 0xDBFF and len(u) > 1 and 0xDC00 <= u[1] <= 0xDFFF:
+        return 0x10000 + ((u[0] - 0xD800) << 10) + (u[1] - 0xDC00), 2
+    return None
+
+
+def ref16_cps(u):
+    out, i = [], 0
+    while i < len(u):
+        r = ref16_next(u[i:])
+        if r is None:
+            return None
+        out.append(r[0])
+        i += r[1]
+    return out
+
+
+def oracle16(op, c, o):
+    """UTF-16: what decodes is exactly a BMP non-surrogate unit or a surrogate pair (RFC 2781) with its value; encode is the inverse;
+    conversions preserve the code points of well-formed text, never produce ill-formed output, stop throws exactly on ill-formed input"""
+    if op == 'd16':
+        u = units_of(c[1])
+        ref = ref16_next(u)
+        t = o[1]
+        if ':' in t:
+            cp, k = t.split(':')
+            got = (int(cp, 16), int(k))
+            if ref is None:
+                return ('utf16-accepts-ill-formed', 'utf_traits<char16_t>::decode returned U+%04X for %s' % (got[0], c[1]))
+            if got != ref:
+                return ('utf16-wrong-code-point', 'utf_traits<char16_t>::decode returned U+%04X/%d units for %s' % (got[0], got[1], c[1]))
+        elif ref is not None:
+            return ('utf16-rejects-wellformed', 'utf_traits<char16_t>::decode rejected %s' % c[1])
+        return None
+    if op == 'e16':
+        cp = int(c[1], 16)
+        exp = chr(cp).encode('utf-16-be').hex()
+        if o[1] != exp or int(o[2]) != len(exp) // 4:
+            return ('utf16-encode-wrong', 'utf_traits<char16_t>::encode/width(U+%04X) = %s %s' % (cp, o[1], o[2]))
+        return None
+    if op == 'c816':
+        s = unhex(c[1])
+        cps = ref_cps(s)
+        skip = units_of(o[1])
+        sk = ref16_cps(skip)
+        if sk is None:
+            return ('utf8-to-utf16-output-ill-formed', 'utf_to_utf<char16_t,char>(skip) produced ill-formed UTF-16')
+        if cps is not None and sk != cps:
+            return ('utf8-to-utf16-changes-code-points', 'utf_to_utf<char16_t,char> changed the code points of well-formed text')
+        # skip policy: the code points of the maximal well-formed pieces, in order (same tokens as the UTF-8 filter without HTML mode)
+        exp, i = [], 0
+        while i < len(s):
+            m = U8CHAR.match(s, i)
+            if m:
+                exp.append(ord(m.group(0).decode('utf-8')))
+                i = m.end()
+            else:
+                i = skip_bad_utf8(s, i)
+        if sk != exp:
+            return ('utf8-to-utf16-skip-policy', 'utf_to_utf<char16_t,char>(skip): code points %s, expected %s' % (sk, exp))
+        if (o[2] == 'throw') != (cps is None):
+            return ('utf8-to-utf16-stop-wrong', 'utf_to_utf<char16_t,char>(stop) %s' % ('threw on valid text' if cps is not None else 'accepted malformed text'))
+        if cps is not None and ref16_cps(units_of(o[2])) != cps:
+            return ('utf8-to-utf16-changes-code-points', 'utf_to_utf<char16_t,char>(stop) changed the code points')
+        return None
+    if op == 'c168':
+        u = units_of(c[1])
+        cps = ref16_cps(u)
+        skip = unhex(o[1])
+        sk = ref_cps(skip)
+        if sk is None:
+            return ('utf16-to-utf8-output-invalid', 'utf_to_utf<char,char16_t>(skip) produced malformed UTF-8')
+        if cps is not None and sk != cps:
+            return ('utf16-to-utf8-changes-code-points', 'utf_to_utf<char,char16_t> changed the code points of well-formed text')
+        if (o[2] == 'throw') != (cps is None):
+            return ('utf16-to-utf8-stop-wrong', 'utf_to_utf<char,char16_t>(stop) %s' % ('threw on valid text' if cps is not None else 'accepted ill-formed text'))
+        if cps is not None and ref_cps(unhex(o[2])) != cps:
+            return ('utf16-to-utf8-changes-code-points', 'utf_to_utf<char,char16_t>(stop) changed the code points')
+        return None
+
+
+def skip_bad_utf8(s, i):
+    """where the support library's decoder resumes after an ill-formed sequence at i: after the lead byte when it is no lead byte, else after
+    the first byte that is not a trail byte (that byte is consumed), or after all the trail bytes that were read"""
+    a = s[i]
+    need = 0 if a < 0x80 else -1 if a < 0xC2 else 1 if a < 0xE0 else 2 if a < 0xF0 else 3 if a <= 0xF4 else -1
+    i += 1
+    if need < 0:
+        return i
+    for _ in range(need):
+        if i >= len(s):
+            return i
+        b = s[i]
+        i += 1
+        if not (0x80 <= b <= 0xBF):
+            return i
+    return i
 
 
 _CP1254 = []
@@ -919,8 +1689,10 @@ def _cp1254_ref():
 def nontrivial(case, out):
     c = case.split()
     op = c[0]
-    if op in ('grid', 'sb1', 'sb2', 'cmp'):
+    if op in ('grid', 'sb1', 'sb2', 'cmp', 'd16', 'c168'):
         return True
+    if op == 'e16':
+        return int(c[1], 16) >= 0x80
     if op == 'enc':
         return int(c[1], 16) >= 0x80
     if c[-1] == '-':
@@ -945,6 +1717,11 @@ def classify(case, out):
         return 'u2u:' + ('throw' if out.endswith('throw') else 'ok')
     if op == 'cmp':
         return 'cmp:' + out.split()[-1]
+    if op == 'd16':
+        t = out.split()[1]
+        return 'd16:' + ('cp%s' % t.split(':')[1] if ':' in t else t[0])
+    if op in ('c168', 'c816'):
+        return op + ':' + ('throw' if out.endswith('throw') else 'ok')
     return op
 
 
@@ -1177,11 +1954,14 @@ def _run(ctx, box):
     ctx.coverage['trusted_base'] = [
         'Coq 8.16.1 kernel, vm_compute (256-point sweeps); no native_compute',
         'tools/cxx2v.py + clang JSON AST, extended in checks/C14.py (validator loop body -> byte predicate, comparator loop body -> step function, '
-        '__builtin_expect); sources: private/utf_iterator.h, private/encoding_validators.h, booster/booster/locale/utf.h, src/encoding.cpp via harness/C14_tu.cpp',
+        '__builtin_expect, LoopTr: pointer loops of the two filter functions -> segment definitions over an abstract decoder/tester, translate_table: '
+        'validators_set constructor -> table, EmitTr: encoders -> list of code units); coq/C14/FilterSem.v (run_loop, emissions, assembly of the '
+        'generated segments in source order, shape checked against EXPECT_SEGS); sources: private/utf_iterator.h, private/encoding_validators.h, booster/booster/locale/utf.h, src/encoding.cpp via harness/C14_tu.cpp',
         'extraction: ExtrOcamlBasic only, OCaml 4.13.1',
         'harness/C14_text.cpp, harness/C14_sweep.cpp (table-driven RFC 3629 reference), ocaml/C14_driver.ml, checks/C14.py (generators; oracles use '
         'Python 3 strict UTF-8 decoding, a regular expression transcribed from the RFC 3629 ABNF, and the stdlib code-page tables)',
-        'hand model of the decoder switch, validate loops, validators_set table, validate_or_filter loops, utf_to_utf (coq/C14/Defs.v), tied by correspondence',
+        'DecTr (decoder bodies -> function of the bytes read at static offsets); FilterSem.run_loop / nx_of (meaning of while / of calling the decoder at a position)',
+        'hand model of utf_to_utf, decode_valid, UTF-16 decode/encode, form widget (coq/C14/Defs.v, Defs16.v), tied by correspondence',
         'coq/C14/Spec.v: transcription of the RFC 3629 section 4 ABNF and of the section 3 encoding table']
     ctx.assumptions = ['bytes < 256; char is signed 8-bit and int at least 32 bits on this target (x86-64), as clang reports',
                        'the replacement character of validate_or_filter is absent (0) or itself acceptable (HTML-safe ASCII for UTF-8; a byte the code page '
@@ -1206,7 +1986,11 @@ def _run(ctx, box):
         '(spelling variants of every table name incl. embedded NUL), validate_or_filter with replacement in {none, ?, space, X, tab, ~, 01, 7F, 80, FF, '
         'random}, utf_to_utf skip/stop; encode/width for code points up to 2^21; name dispatch incl. near-miss names; form submissions (frm: real '
         'cppcms::form + widgets::text loaded from an http::context, 14 locale names, limits around the code-point count and the byte count, charset '
-        'validation on/off); windows-1254/cp1254 through the iconv/ICU fall-back (oracle only, no model). Every tier: all sequences of '
+        'validation on/off; plus exact limit boundaries: n code points of 1..4 bytes each against limits n-1, n, n+1, (n,n) and the same around the byte length); '
+        'UTF-16 (d16: all pairs of 16 boundary code units through utf_traits<char16_t>::decode on exactly sized blocks, e16: encode/width, c816 / c168: '
+        'utf_to_utf between UTF-8 and UTF-16, skip and stop, on malformed mixes and unit strings with lone / swapped surrogates); '
+        'windows-1254/cp1254 (all bytes) and EUC-JP, Shift_JIS, GB2312, GBK, CP936, Big5, EUC-KR, CP866 (safe repertoire, truncations, control characters) '
+        'through the iconv/ICU fall-back (oracle only, no model). Every tier: all sequences of '
         'length 1..3 natively under ASan against a table-driven reference (one evaluation per block of 1/256/65536 sequences); thorough adds all 2^32 '
         'sequences of length 4. Non-trivial: the input contains a byte outside printable ASCII (decoders, validators), the filter '
         'had to change the text (flt), a non-ASCII code point (enc); grid/sb1/sb2/cmp lines always. distinct = distinct case lines.')
@@ -1229,7 +2013,7 @@ def _run(ctx, box):
                 ctx.broke('form harness build failed', err)
             else:
                 vlib.differential(ctx, frm, fexe, mexe, form_oracle)
-        fb = [c for c in cases if c.startswith('vnm ') and norm_name(unhex(c.split()[1])) in ('windows1254', 'cp1254')]
+        fb = [c for c in cases if c.startswith('vnm ') and (norm_name(unhex(c.split()[1])) in ('windows1254', 'cp1254') or norm_name(unhex(c.split()[1])) in FALLBACK_CODECS)]
         cases = [c for c in cases if c not in fb]
         if cases:
             vlib.differential(ctx, cases, exe, mexe, oracle, nontrivial, classify)
